@@ -48,3 +48,21 @@ CASES += [
       "        if \"cutoff-time\" in params.keys():\n            ctime = params[\"cutoff-time\"]\n        else:\n            ctime = self.axis.max\n",
       "        if \"cutoff-time\" in params.keys():\n            self._ctime = params[\"cutoff-time\"]\n        elif not hasattr(self, \"_ctime\"):\n            self._ctime = self.axis.max\n        ctime = self._ctime\n"),
 ]
+
+CASES += [
+    m("raw parameters to the Underdamped spectral density (the repaired defect)", "C09-E", S,
+      "                    self._make_underdamped(prms)", "                    self._make_underdamped(params)"),
+    m("raw parameters to the CP29 spectral density (the repaired defect)", "C09-E", S,
+      "                    self._make_CP29_spectral_density(prms, values)", "                    self._make_CP29_spectral_density(params, values)"),
+    m("Underdamped correlation function adds the unconverted reorganisation energy (the repaired defect)", "C09-E", C,
+      "        lamb = self.convert_energy_2_internal_u(params[\"reorg\"])\n        \n        time = self.axis #.data\n\n        if values is not None:\n            cfce = values\n        else:\n            fa = SpectralDensity(time, params)\n            cf = fa.get_CorrelationFunction(temperature=temperature)\n            cfce = cf.data\n           \n        self._add_me(self.axis, cfce)\n\n        # update reorganization energy\n        self.lamb += lamb\n        \n        # check temperature and update cutoff time\n        self._set_temperature_and_cutoff_time(temperature, 5.0*ctime) \n        \n\n\n\n    def _make_B777",
+      "        lamb = params[\"reorg\"]\n        \n        time = self.axis #.data\n\n        if values is not None:\n            cfce = values\n        else:\n            fa = SpectralDensity(time, params)\n            cf = fa.get_CorrelationFunction(temperature=temperature)\n            cfce = cf.data\n           \n        self._add_me(self.axis, cfce)\n\n        # update reorganization energy\n        self.lamb += lamb\n        \n        # check temperature and update cutoff time\n        self._set_temperature_and_cutoff_time(temperature, 5.0*ctime) \n        \n\n\n\n    def _make_B777"),
+    m("overdamped correlation function built from a dictionary converted twice", "C09-E", C,
+      "                        self._make_underdamped_brownian(prms) #, values=values)", "                        self._make_underdamped_brownian(params) #, values=values)"),
+    m("self.energy_units again (the repaired defect)", "C09-D", C,
+      "        lamb = self.convert_energy_2_internal_u(params[\"reorg\"])\n        print('correlation function lamb",
+      "        lamb = self.manager.iu_energy(params[\"reorg\"], units=self.energy_units)\n        print('correlation function lamb"),
+    m("CP29 overwrites again (the repaired defect)", "C09-C", S,
+      "            self._add_me(self.axis, cfce)\n\n        # this component adds nothing to the zero-frequency limits\n        self.lamb += lamb",
+      "            self._make_me(self.axis, cfce)\n\n        # this component adds nothing to the zero-frequency limits\n        self.lamb = lamb"),
+]
